@@ -143,10 +143,13 @@ def timeout(duration, func, *args, on_timeout=None, **kwargs):
             e = ei[1]
             try:
                 e.exc_info = target_thread.exc_info
-            except Exception:
+            except (Exception, SystemExit):
                 # Student-defined exceptions may not accept new attributes
+                # (their __setattr__ is their code: it may fail, or exit)
                 pass
-            raise e.with_traceback(ei[2])
+            # (through the class: the object's own attribute lookup may be
+            # something its program wrote)
+            raise BaseException.with_traceback(e, ei[2])
         return target_thread.result
 
 
